@@ -9,7 +9,9 @@
 (* One action per public call of the property's alphabet (C10):            *)
 (*   train(), eval(), use_cache(b), forward / inverse (optionally followed *)
 (*   by a backward pass to the inputs), optimiser step in training mode,   *)
-(*   load_state_dict, dtype conversion.                                    *)
+(*   load_state_dict, dtype conversion - and copy.deepcopy of the          *)
+(*   transform (snapshots of the best model, EMA copies), an operation    *)
+(*   the uncached transform supports in every state.                      *)
 (*                                                                         *)
 (* Parameter versions are abstracted to {cur, stale} relative to the       *)
 (* current parameters, so the state space is finite without a constraint   *)
@@ -27,6 +29,8 @@ CONSTANTS
   LoadInvalidates,    \* _load_from_state_dict
   ApplyInvalidates,   \* _apply (dtype / device conversion)
   TrainInvalidates,   \* train(True)
+  CopyDrops,          \* copy.deepcopy: TRUE = the copy starts with an empty cache, FALSE = the cached
+                      \* tensors are deep-copied with the module (which autograd refuses for non-leaves)
   WithInplace         \* extend the alphabet by in-place parameter edits in eval mode
 
 VARIABLES training, usingCache, dt, cw, ci, cl, res
@@ -144,8 +148,19 @@ ToDtype(d) ==
   /\ res' = [k |-> "to"]
   /\ UNCHANGED <<training, usingCache>>
 
+\* copy.deepcopy(transform); the session continues with the copy (with the original if copying raised).
+\* Tensors that hang on an autograd graph cannot be deep-copied.
+Attached(s) == s.filled /\ s.g # "leaf"
+Copy ==
+  /\ \E drop \in CopyDrops :
+       IF drop THEN res' = [k |-> "copy", o |-> "ok"] /\ Invalidate
+       ELSE /\ res' = [k |-> "copy", o |-> (IF Attached(cw) \/ Attached(ci) \/ Attached(cl) THEN "raise_copy" ELSE "ok")]
+            /\ UNCHANGED <<cw, ci, cl>>
+  /\ UNCHANGED <<training, usingCache, dt>>
+
 Next ==
   \/ Train \/ Eval
+  \/ Copy
   \/ \E b \in BOOLEAN : UseCache(b)
   \/ \E dir \in {"fwd", "inv"}, bw \in BOOLEAN, o \in Outcomes, c \in BOOLEAN : Call(dir, bw, o, c)
   \/ OptStep \/ Load \/ InplaceEdit
@@ -166,9 +181,10 @@ Transparent == [][IsCall(res') => res'.o # "stale"]_vars
 Known_GraphFreed(r) == r.o = "raise_graph"
 
 \* the cached transform supports the same operations as the uncached one
-SameOperations == [][IsCall(res') => res'.o \in {"fresh", "stale"}]_vars
+CopyWorks == [][res'.k = "copy" => res'.o = "ok"]_vars
+SameOperations == [][(IsCall(res') => res'.o \in {"fresh", "stale"}) /\ (res'.k = "copy" => res'.o = "ok")]_vars
 SameOperationsModuloKnown ==
-  [][IsCall(res') => (res'.o \in {"fresh", "stale"} \/ Known_GraphFreed(res'))]_vars
+  [][(IsCall(res') => (res'.o \in {"fresh", "stale"} \/ Known_GraphFreed(res'))) /\ (res'.k = "copy" => res'.o = "ok")]_vars
 
 \* the cache is only ever consulted in evaluation mode with caching enabled
 CacheOnlyInEval == [][IsCall(res') /\ res'.cached => (~training /\ usingCache)]_vars
